@@ -11,7 +11,7 @@ pub fn spec() -> PropSpec {
     PropSpec {
         id: "C01",
         level: "model_checking",
-        rule: "enumeration of predicate-graph ENCODINGS: all (nodes, edges) with n <= 3 (thorough 4) nodes and E <= 3 (thorough 4) edges where every edge_start is in {0..=E, E+1, 0xFFFF} and every edge in {0..n-1, n (dangling)} — every numbering incl. non-topological ones, multi-edges, diamonds, overlapping slices, cycles, self-loops, malformed slices; x node-role assignments (all-tracer/dump base plus each node in turn made post-reading / failing / true / false[0] / empty / [1,1] leaf) x solution sets {one solution, two solutions of the same predicate, two predicates} x both collect_all_failures x two call patterns (two-pass entry point; check_set_predicates in mode Outputs then Checks over a shared cache). Oracle = reference graph semantics evaluated with the reference VM (verdict class, failing solutions/nodes, gas, computed mutations, data outputs) plus the echo log (every node exactly once, after its parents, rejected graphs never partially evaluated). states = distinct cases, transitions = node executions observed through the echo channel. non-trivial = at least one node program ran; distinct by full case",
+        rule: "enumeration of predicate-graph ENCODINGS: all (nodes, edges) with n <= 3 (thorough 4) nodes and E <= 3 (thorough 4) edges where every edge_start is in {0..=E, E+1, 0xFFFF} and every edge in {0..n-1, n (dangling)} — every numbering incl. non-topological ones, multi-edges, diamonds, overlapping slices, cycles, self-loops, malformed slices; x node-role assignments (all-tracer/dump base plus each node in turn made post-reading / failing / true / false[0] / empty / [1,1] leaf; all nodes sharing one program; every pair of nodes sharing one post-reading program) x solution sets {one solution, two solutions of the same predicate, two predicates} x both collect_all_failures x two call patterns (two-pass entry point; check_set_predicates in mode Outputs then Checks over a shared cache). Oracle = reference graph semantics evaluated with the reference VM (verdict class, failing solutions/nodes, gas, computed mutations, data outputs) plus the echo log (every node exactly once, after its parents, rejected graphs never partially evaluated). states = distinct cases, transitions = node executions observed through the echo channel. non-trivial = at least one node program ran; distinct by full case",
         assumptions: &[
             "an edge to a node index >= n is ignored for ordering (the accessor does not reject it); its acceptance is not reported",
             "children of a failed node have no defined input: their outcome is masked; with collect_all_failures=false only 'a non-empty subset of genuinely failing nodes' is required",
@@ -69,6 +69,13 @@ pub fn features(case: &CkCase, rf: &RefRun) -> Vec<String> {
 }
 
 fn tag_owner(case: &CkCase, tag: W) -> Option<(usize, usize)> {
+    for (p, pc) in case.preds.iter().enumerate() {
+        for (n, node) in pc.nodes.iter().enumerate() {
+            if matches!(&node.1, Role::Tagged(_, t) if *t == tag) {
+                return Some((p, n));
+            }
+        }
+    }
     let t = tag - 1;
     let (p, n) = ((t / 32) as usize, (t % 32) as usize);
     if p < case.preds.len() && n < case.preds[p].nodes.len() {
@@ -221,10 +228,17 @@ pub fn compare_two_pass(prop: &str, case: &CkCase, real: &RealRun, rf: &RefRun, 
             }
             continue;
         }
+        // nodes that share a program with another node cannot be told apart in the log:
+        // the ordering clause is checked on uniquely tagged nodes only
+        let eff_tag = |n: usize| match &case.preds[s.pred].nodes[n].1 {
+            Role::Tagged(_, t) => *t,
+            _ => tag_of(s.pred, n),
+        };
+        let unique = |tag: W| (0..case.preds[s.pred].nodes.len()).filter(|&n| eff_tag(n) == tag).count() == 1;
         let pos: BTreeMap<usize, usize> = echoes
             .iter()
             .enumerate()
-            .filter(|(_, r)| r.0 == s.contract)
+            .filter(|(_, r)| r.0 == s.contract && unique(r.1[0]))
             .filter_map(|(i, r)| tag_owner(case, r.1[0]).filter(|o| o.0 == s.pred).map(|o| (o.1, i)))
             .collect();
         for (&node, &at) in &pos {
@@ -401,6 +415,20 @@ pub fn role_assignments(starts: &[u16], edges: &[u16]) -> Vec<Vec<Role>> {
     let leaf: Vec<bool> = (0..n).map(|i| edges_of(starts, edges, i).map(|e| e.is_empty()).unwrap_or(true)).collect();
     let base: Vec<Role> = leaf.iter().map(|&l| if l { Role::LeafDump } else { Role::Tracer }).collect();
     let mut out = vec![base.clone()];
+    // nodes sharing one program: all tracers one program, all dump leaves another
+    out.push(base.iter().map(|r| Role::Tagged(Box::new(r.clone()), if *r == Role::Tracer { 999 } else { 998 })).collect());
+    // two nodes sharing one post-state-reading program
+    for i in 0..n {
+        for j in i + 1..n {
+            if leaf[i] == leaf[j] {
+                let shared = if leaf[i] { Role::LeafTruePost } else { Role::TracerPost };
+                let mut a = base.clone();
+                a[i] = Role::Tagged(Box::new(shared.clone()), 997);
+                a[j] = Role::Tagged(Box::new(shared), 997);
+                out.push(a);
+            }
+        }
+    }
     for i in 0..n {
         let specials: Vec<Role> = if leaf[i] {
             vec![Role::LeafDumpPost, Role::LeafTrue, Role::LeafTruePost, Role::LeafFalse0, Role::LeafEmpty, Role::LeafOneOne, Role::Fails]
